@@ -20,4 +20,12 @@ CHECKS['C09'] = {'engine': 'EX', 'design_ref': 'DESIGN.md 6 C09',
     'technique': 'bounded exhaustive enumeration of all sequence pairs over small lattices x lags x norms against textbook double-loop sums',
     'text': 'Every pair of lattice sequences of equal and unequal lengths up to the bound, every lag and every normalisation is executed on CORRELATION, xcorr and corrmtx and compared with explicit sums.',
     'note': _EX_NOTE}
+CHECKS['C10'] = {'engine': 'EX', 'design_ref': 'DESIGN.md 6 C10',
+    'technique': 'bounded exhaustive enumeration of reflection-coefficient lattices / lattice autocorrelations / diagonally dominant Toeplitz systems against dense linear algebra built from the definitions',
+    'text': 'Every autocorrelation generated from a 5-letter reflection-coefficient alphabet up to the order bound (plus families to order 40), every lattice sequence classified PD / indefinite, every order argument, and every small lattice Toeplitz / Hermitian / Cholesky system is solved by the real code and the defining equations are checked on dense matrices.',
+    'note': _EX_NOTE}
+CHECKS['C11'] = {'engine': 'EX', 'design_ref': 'DESIGN.md 6 C11',
+    'technique': 'bounded exhaustive enumeration of reflection-coefficient lattices, all conversion pairs and compositions, against textbook step-up/step-down and dense normal equations',
+    'text': 'For every reflection-coefficient vector of the lattice (orders to the bound, families to 16, real and complex) all six conversions, their compositions and round trips, LAR / inverse-sine bijections and LSF round trips are executed and compared with an independent reference.',
+    'note': _EX_NOTE}
 NOT_BUILT = {}
